@@ -3,8 +3,12 @@
 package main
 
 import (
+	"context"
 	"fmt"
 	"net"
+	"os"
+	"os/exec"
+	"path/filepath"
 	"strconv"
 	"strings"
 	"time"
@@ -16,59 +20,172 @@ import (
 // Wired cases with the REAL address source: as the wr family (real server.Start, real connmgr, the
 // server's own callbacks), and in addition GetNewAddress is the production closure
 // p2putil.NewAddressFunc(addrManager.GetAddress, server.OutboundGroupCount, lookup) over the server's
-// real address manager, filled by the script.  Every dial succeeds and every handshake completes.
+// real address manager (BanAddress: addrManager.BanAddress), filled by the script.  A dial succeeds and
+// the handshake completes unless the script made the address go away.
 //
 // head:   wa t=<TargetOutbound> mf=<connmgr.maxFailedAttempts>
-// book:   a<g>.<i>.<p><r>   a known address 45.(10+g).(1+i).9 (outbound group g); p = d default port /
+// book:   a<g>.<i>.<p><r>   known before Start: 45.(10+g).(1+i).9 (outbound group g); p = d default port /
 //                           n non-default port; r = f fresh / r attempted just now (< 10 minutes ago)
 // events: X<k>              the remote closes the (k mod live)-th live connection
+//         Z<g>.<i>          the node at that address goes away: its live connections are closed by the
+//                           remote and every later dial to it is refused (after maxFailedAttempts refusals
+//                           the connection manager bans the address: addrManager.BanAddress)
+//         D<g>.<i>          later dials to that address are refused (a live connection stays)
+//         B<g>.<i>.<p><r>   a further address becomes known now (addrManager.AddAddresses)
 // The address manager picks candidates at random, so only projections that do not depend on the pick
-// are observed: "s:" after Start once the target is established (or the bound expired), one word per
-// event once the closed connection is replaced, "e:" after a settling period; each
-// "o<open connections>/c<server.ConnectedCount()>/n<Dial calls>".  A book with fewer outbound groups
-// than the target cannot fill the target by design (the group filter never relaxes): such a case is
-// reported as UNDERDETERMINED by both sides.
+// are observed.  At each step U = number of outbound groups with a known address that has not gone
+// away.  If U >= target the target is owed: the word is "<tag>:o<open connections>/c<ConnectedCount()>
+// /n<Dial calls>" once the manager is back at the target (tag "!" when the bound expired); n is printed
+// as "*" in scripts with Z/D events (how often a dead address is retried depends on the picks).  If
+// U < target the group filter (which never relaxes, by design) may make the target unreachable: the word
+// is "u".  A call into the address manager that does not return within its bound (AddAddresses for B,
+// a NeedMoreAddresses probe after every step) appends "/ADDRMGR-BLOCKED"; a B that did not return has
+// tag "#".  "s:" = after Start, "e:" = after a settling period.
+// Scripts with Z/D/B events run in a child process (a blocked address manager leaves a goroutine that
+// spins for ever holding the mutex; the child's exit ends it) with a hard time limit.
 
-func c18WaBook(evs []string) (book []p2p.VerifC18BookEntry, groups map[int]bool, rest []string, ok bool) {
-	groups = map[int]bool{}
+type c18WaAddr struct {
+	g, i   int
+	port   int
+	recent bool
+}
+
+func c18WaParseAddr(s string, withFlags bool) (a c18WaAddr, ok bool) {
+	f := strings.Split(s, ".")
+	want := 2
+	if withFlags {
+		want = 3
+	}
+	if len(f) != want {
+		return a, false
+	}
+	g, e1 := strconv.Atoi(f[0])
+	i, e2 := strconv.Atoi(f[1])
+	if e1 != nil || e2 != nil || g < 0 || g > 99 || i < 0 || i > 99 {
+		return a, false
+	}
+	a = c18WaAddr{g: g, i: i, port: 8333}
+	if withFlags {
+		if len(f[2]) != 2 || !strings.ContainsRune("dn", rune(f[2][0])) || !strings.ContainsRune("fr", rune(f[2][1])) {
+			return a, false
+		}
+		if f[2][0] == 'n' {
+			a.port = 18555
+		}
+		a.recent = f[2][1] == 'r'
+	}
+	return a, true
+}
+
+func (a c18WaAddr) ip() net.IP  { return net.IPv4(45, byte(10+a.g), byte(1+a.i), 9) }
+func (a c18WaAddr) key() string { return fmt.Sprintf("%d.%d", a.g, a.i) }
+func (a c18WaAddr) entry() p2p.VerifC18BookEntry {
+	return p2p.VerifC18BookEntry{IP: a.ip(), Port: a.port, Recent: a.recent}
+}
+
+func c18WaNeedsChild(evs []string) bool {
 	for _, e := range evs {
-		if len(e) >= 2 && e[0] == 'a' {
-			f := strings.Split(e[1:], ".")
-			if len(f) != 3 || len(f[2]) != 2 {
-				return nil, nil, nil, false
-			}
-			g, e1 := strconv.Atoi(f[0])
-			i, e2 := strconv.Atoi(f[1])
-			if e1 != nil || e2 != nil || g < 0 || g > 99 || i < 0 || i > 99 ||
-				!strings.ContainsRune("dn", rune(f[2][0])) || !strings.ContainsRune("fr", rune(f[2][1])) {
-				return nil, nil, nil, false
-			}
-			port := 8333
-			if f[2][0] == 'n' {
-				port = 18555
-			}
-			book = append(book, p2p.VerifC18BookEntry{IP: net.IPv4(45, byte(10+g), byte(1+i), 9), Port: port, Recent: f[2][1] == 'r'})
-			groups[g] = true
-		} else {
-			rest = append(rest, e)
+		if len(e) >= 2 && (e[0] == 'Z' || e[0] == 'D' || e[0] == 'B') {
+			return true
 		}
 	}
-	return book, groups, rest, true
+	return false
+}
+
+// c18RunWaChild runs the case in a child process of this harness binary (--only) under a hard limit.
+func c18RunWaChild(c *Ctx, input string) string {
+	dir := c.TmpDir("wa-child")
+	ctx, cancel := context.WithTimeout(context.Background(), 40*time.Second)
+	defer cancel()
+	cmd := exec.CommandContext(ctx, os.Args[0], "C18", dir, "--only", input)
+	cmd.Env = os.Environ()
+	cmd.Dir = dir
+	out, err := cmd.CombinedOutput()
+	b, rerr := os.ReadFile(filepath.Join(dir, "impl.txt"))
+	if rerr == nil {
+		l := strings.TrimRight(string(b), "\n")
+		if i := strings.IndexByte(l, '\t'); i >= 0 && !strings.Contains(l[i+1:], "\n") {
+			return l[i+1:]
+		}
+	}
+	if ctx.Err() != nil {
+		return "CHILD-TIMEOUT"
+	}
+	msg := strings.ReplaceAll(strings.ReplaceAll(string(out), "\n", " "), "\t", " ")
+	if len(msg) > 200 {
+		msg = msg[len(msg)-200:]
+	}
+	return fmt.Sprintf("CHILD-FAILED %v %s", err, msg)
 }
 
 func c18RunWa(head []string, evs []string, st *Stack) (obs string) {
 	target := c18Head(head, "t", 0)
-	if c18Head(head, "mf", -1) != connmgr.VerifC18MaxFailedAttempts {
-		return fmt.Sprintf("LIMITS mf=%d", connmgr.VerifC18MaxFailedAttempts)
+	mf := connmgr.VerifC18MaxFailedAttempts
+	if c18Head(head, "mf", -1) != mf {
+		return fmt.Sprintf("LIMITS mf=%d", mf)
 	}
-	book, groups, rest, ok := c18WaBook(evs)
-	if !ok || target < 1 || target > 8 {
+	if target < 1 || target > 8 {
 		return "BAD-INPUT"
 	}
-	if len(groups) < target {
-		return "UNDERDETERMINED"
+	// book tokens (anywhere in the script) are known before Start
+	var book []p2p.VerifC18BookEntry
+	known := map[string]c18WaAddr{}
+	gone := map[string]bool{}
+	var rest []string
+	for _, e := range evs {
+		if len(e) >= 2 && e[0] == 'a' {
+			a, ok := c18WaParseAddr(e[1:], true)
+			if !ok {
+				return "BAD-INPUT"
+			}
+			book = append(book, a.entry())
+			if _, dup := known[a.key()]; !dup {
+				known[a.key()] = a
+			}
+		} else {
+			rest = append(rest, e)
+		}
+	}
+	// dial counts are only determined when no address goes away and the target is owed throughout
+	starN := false
+	{
+		kn := map[string]int{}
+		for k, a := range known {
+			kn[k] = a.g
+		}
+		ug := func() int {
+			gs := map[int]bool{}
+			for _, g := range kn {
+				gs[g] = true
+			}
+			return len(gs)
+		}
+		if ug() < target {
+			starN = true
+		}
+		for _, e := range rest {
+			if len(e) >= 2 && (e[0] == 'Z' || e[0] == 'D') {
+				starN = true
+			}
+			if len(e) >= 2 && e[0] == 'B' {
+				if a, ok := c18WaParseAddr(e[1:], true); ok {
+					kn[a.key()] = a.g
+				}
+			}
+		}
+	}
+	usable := func() int {
+		gs := map[int]bool{}
+		for k, a := range known {
+			if !gone[k] {
+				gs[a.g] = true
+			}
+		}
+		return len(gs)
 	}
 	f := &c18WrFix{quit: make(chan struct{}), plan: map[string]c18WrDial{}, nonce: uint64(time.Now().UnixNano())}
+	refuse := map[string]bool{} // "ip:port" -> dials refused
+	refused := map[string]int{}
 	w, err := p2p.VerifC18NewWired(p2p.VerifC18WiredCfg{
 		Services:          st.Services,
 		Target:            target,
@@ -82,6 +199,10 @@ func c18RunWa(head []string, evs []string, st *Stack) (obs string) {
 			ta, isTCP := a.(*net.TCPAddr)
 			if !isTCP {
 				return nil, fmt.Errorf("unexpected address type %T", a)
+			}
+			if refuse[ta.String()] {
+				refused[ta.String()]++
+				return nil, fmt.Errorf("connection refused")
 			}
 			c := &c18WrConn{f: f, closed: make(chan struct{}), raddr: ta, live: true}
 			f.nonce++
@@ -98,6 +219,7 @@ func c18RunWa(head []string, evs []string, st *Stack) (obs string) {
 		return "ERR " + err.Error()
 	}
 	f.w = w
+	blocked := false
 	openCount := func() int {
 		n := 0
 		for _, c := range f.conns {
@@ -111,6 +233,9 @@ func c18RunWa(head []string, evs []string, st *Stack) (obs string) {
 		b := c18CmBound
 		if c18WrTimeouts >= 3 {
 			b = 150 * time.Millisecond
+		}
+		if blocked {
+			b = 50 * time.Millisecond
 		}
 		deadline := time.Now().Add(b)
 		for {
@@ -127,11 +252,32 @@ func c18RunWa(head []string, evs []string, st *Stack) (obs string) {
 			time.Sleep(100 * time.Microsecond)
 		}
 	}
-	digest := func() string {
+	probe := func() {
+		if !blocked && !w.AddrMgrResponds(400*time.Millisecond) {
+			blocked = true
+		}
+	}
+	word := func(tag string, owed bool) string {
+		probe()
+		if os.Getenv("C18_DEBUG") != "" {
+			a, b, cc, d, e, ok := w.AddrCounts()
+			fmt.Fprintln(os.Stderr, "addrmgr nTried", a, "nNew", b, "inTried", cc, "inNew", d, "index", e, ok)
+		}
+		sfx := ""
+		if blocked {
+			sfx = "/ADDRMGR-BLOCKED"
+		}
+		if !owed {
+			return "u" + sfx
+		}
 		cc := w.ConnectedCount(2 * time.Second)
 		f.mu.Lock()
 		defer f.mu.Unlock()
-		return fmt.Sprintf("o%d/c%d/n%d", openCount(), cc, f.dials)
+		n := strconv.Itoa(f.dials)
+		if starN {
+			n = "*"
+		}
+		return fmt.Sprintf("%s:o%d/c%d/n%s%s", tag, openCount(), cc, n, sfx)
 	}
 	defer func() {
 		if r := recover(); r != nil {
@@ -141,7 +287,7 @@ func c18RunWa(head []string, evs []string, st *Stack) (obs string) {
 		go func() { w.Stop(); close(done) }()
 		select {
 		case <-done:
-		case <-time.After(5 * time.Second):
+		case <-time.After(3 * time.Second):
 		}
 		f.mu.Lock()
 		for _, c := range f.conns {
@@ -153,14 +299,26 @@ func c18RunWa(head []string, evs []string, st *Stack) (obs string) {
 		return "ERR " + err.Error()
 	}
 	var out []string
-	tag := "s"
-	if !settled(target) {
-		tag = "!"
+	step := func(tag string, wantDials int) {
+		owed := usable() >= target
+		if owed {
+			if !settled(wantDials) && tag != "#" {
+				tag = "!"
+			}
+		} else {
+			time.Sleep(2 * time.Millisecond)
+		}
+		out = append(out, word(tag, owed))
 	}
-	out = append(out, tag+":"+digest())
+	step("s", target)
 	for _, e := range rest {
 		tag := "?"
-		if len(e) >= 2 && e[0] == 'X' {
+		f.mu.Lock()
+		d0 := f.dials
+		f.mu.Unlock()
+		want := 0
+		switch {
+		case len(e) >= 2 && e[0] == 'X':
 			if k, err := strconv.Atoi(e[1:]); err == nil && k >= 0 {
 				f.mu.Lock()
 				var live []*c18WrConn
@@ -169,29 +327,85 @@ func c18RunWa(head []string, evs []string, st *Stack) (obs string) {
 						live = append(live, c)
 					}
 				}
-				d0 := f.dials
 				f.mu.Unlock()
 				if len(live) == 0 {
 					tag = "-"
 				} else {
 					_ = live[k%len(live)].Close()
 					tag = "X"
-					if !settled(d0 + 1) {
-						tag = "!"
+					want = d0 + 1
+				}
+			}
+		case len(e) >= 2 && (e[0] == 'Z' || e[0] == 'D'):
+			a, ok := c18WaParseAddr(e[1:], false)
+			if !ok {
+				break
+			}
+			ka, isKnown := known[a.key()]
+			if !isKnown {
+				tag = "-"
+				break
+			}
+			tag = e[:1]
+			gone[a.key()] = true
+			addr := (&net.TCPAddr{IP: ka.ip(), Port: ka.port}).String()
+			f.mu.Lock()
+			refuse[addr] = true
+			var victims []*c18WrConn
+			if e[0] == 'Z' {
+				for _, c := range f.conns {
+					if !c.isClosed() && c.raddr.String() == addr {
+						victims = append(victims, c)
 					}
 				}
 			}
+			f.mu.Unlock()
+			for _, c := range victims {
+				_ = c.Close()
+			}
+			if e[0] == 'Z' && usable() < target && !blocked {
+				// nothing else can fill the slot: give the manager time to run into the ban of this address
+				deadline := time.Now().Add(1500 * time.Millisecond)
+				for time.Now().Before(deadline) {
+					f.mu.Lock()
+					done := refused[addr] >= mf-1 || openCount() >= target // the close itself is failure no. 1
+					f.mu.Unlock()
+					if done {
+						break
+					}
+					time.Sleep(200 * time.Microsecond)
+				}
+				time.Sleep(5 * time.Millisecond)
+			}
+		case len(e) >= 2 && e[0] == 'B':
+			a, ok := c18WaParseAddr(e[1:], true)
+			if !ok {
+				break
+			}
+			tag = "B"
+			if _, dup := known[a.key()]; !dup {
+				known[a.key()] = a
+			}
+			if blocked || !w.AddAddress(a.entry(), 500*time.Millisecond) {
+				blocked = true
+				tag = "#"
+			}
 		}
-		out = append(out, tag+":"+digest())
+		step(tag, want)
 	}
 	time.Sleep(5 * time.Millisecond)
-	out = append(out, "e:"+digest())
+	step("e", 0)
 	return strings.Join(out, " ")
 }
 
 func c18GenWa(c *Ctx, st *Stack) error {
 	mf := connmgr.VerifC18MaxFailedAttempts
 	seen := map[string]bool{}
+	type job struct {
+		in, head, class string
+		evs             []string
+	}
+	var later []job
 	emit := func(t int, evs []string, class string) {
 		head := fmt.Sprintf("wa t=%d mf=%d", t, mf)
 		in := head + ";" + strings.Join(evs, ";")
@@ -199,6 +413,10 @@ func c18GenWa(c *Ctx, st *Stack) error {
 			return
 		}
 		seen[in] = true
+		if c18WaNeedsChild(evs) {
+			later = append(later, job{in, head, class, evs})
+			return
+		}
 		c.Case(in, c18RunWa(strings.Fields(head), evs, st))
 		c.Count("wa:" + class)
 	}
@@ -209,6 +427,7 @@ func c18GenWa(c *Ctx, st *Stack) error {
 		}
 		return r
 	}
+	fl := func() string { return []string{"df", "df", "nf", "dr", "nr"}[c.Rng.Intn(5)] }
 	for rep, n := 0, c.Pick(2, 40); rep < n; rep++ {
 		for t := 1; t <= 3; t++ {
 			ng := t + c.Rng.Intn(3) // at least as many groups as the target
@@ -237,6 +456,47 @@ func c18GenWa(c *Ctx, st *Stack) error {
 			}), closes()...), "mixed-one-fresh")
 			// plain book
 			emit(t, append(mk(func(g, i int) string { return "df" }), closes()...), "fresh-default")
+
+			// address bans: every peer the service was connected to goes away (closed by the remote,
+			// then refusing until the connection manager bans the address), then further addresses of
+			// other groups become known: the target has to be re-established
+			var evs []string
+			for g := 0; g < t; g++ {
+				evs = append(evs, fmt.Sprintf("a%d.0.%s", g, fl()))
+			}
+			for g := 0; g < t; g++ {
+				evs = append(evs, fmt.Sprintf("Z%d.0", g))
+			}
+			for g := 0; g < t; g++ {
+				evs = append(evs, fmt.Sprintf("B%d.0.%s", 10+g, fl()))
+			}
+			emit(t, append(evs, closes()...), "ban-all-connected-then-new")
+			// the other dialable address is known BEFORE the connected one goes away
+			evs = nil
+			for g := 0; g < t; g++ {
+				evs = append(evs, fmt.Sprintf("a%d.0.%s", g, fl()))
+			}
+			evs = append(evs, fmt.Sprintf("B%d.0.%s", 20, fl()), "Z0.0")
+			emit(t, append(evs, closes()...), "ban-with-other-known")
+			// one by one: a peer goes away, a new address shows up, the next one goes away ...
+			evs = nil
+			for g := 0; g < t; g++ {
+				evs = append(evs, fmt.Sprintf("a%d.0.%s", g, fl()))
+			}
+			for g := 0; g < t; g++ {
+				evs = append(evs, fmt.Sprintf("Z%d.0", g), fmt.Sprintf("B%d.0.%s", 30+g, fl()))
+			}
+			evs = append(evs, fmt.Sprintf("Z%d.0", 30), fmt.Sprintf("B%d.0.df", 40))
+			emit(t, append(evs, closes()...), "ban-one-by-one")
+			// refusing addresses beside good ones of the same and of other groups
+			evs = nil
+			for g := 0; g < t+1; g++ {
+				evs = append(evs, fmt.Sprintf("a%d.0.%s", g, fl()), fmt.Sprintf("a%d.1.%s", g, fl()))
+			}
+			evs = append(evs, "D0.0", "D1.1")
+			evs = append(evs, closes()...)
+			evs = append(evs, "Z0.1", fmt.Sprintf("B%d.0.df", 50))
+			emit(t, append(evs, closes()...), "refusing-beside-good")
 		}
 		// (d) one /16 group only: the group filter; the target is 1 (a second slot could never be filled)
 		var b []string
@@ -244,6 +504,11 @@ func c18GenWa(c *Ctx, st *Stack) error {
 			b = append(b, fmt.Sprintf("a7.%d.%s", i, []string{"df", "nf", "dr"}[c.Rng.Intn(3)]))
 		}
 		emit(1, append(b, closes()...), "one-group")
+	}
+	// the scripts that may leave a blocked address manager behind run last, each in a child process
+	for _, j := range later {
+		c.Case(j.in, c18RunWaChild(c, j.in))
+		c.Count("wa:" + j.class)
 	}
 	return nil
 }
